@@ -96,7 +96,7 @@ fn seq_pass_main(input: &[u8]) -> i32 {
             msgs.push((off, e.to_string()));
         }
     }
-    msgs.sort_by_key(|(o, _)| *o); // stable: same rule as the collector
+    msgs.sort(); // (position, text): same rule as the collector (ErrorStats::sort_error_msgs_by_mem_pos)
     for (_, m) in &msgs {
         fastpasta::display_error(m);
     }
